@@ -3753,3 +3753,85 @@ func (r *Report) VarintChainPkg(key, pkgPrefix string, minTotalReads int) {
 		r.Unres(key+"|total", "the proof package parses IAVL node headers with chained varint reads", fmt.Sprintf("%d varint reads found in %s, expected >= %d", total, pkgPrefix, minTotalReads))
 	}
 }
+
+// reject describes one allowed way of failing: the error value contains Atoms and (optionally) the return is
+// controlled by at least one of the conditions in Under.
+type reject struct {
+	Atoms []string
+	Under []Cond
+}
+
+// FailureCensus: the set of ways fn can reject (returns with a non-nil error) is exactly the frozen set: every failure
+// return's error value must match one allowed entry and be controlled by one of that entry's conditions, and every
+// entry must still occur. A NEW rejection, or an existing error returned under a NEW condition, is what "accepted
+// exactly when ..." properties forbid (over-rejection), so it is reported.
+func (r *Report) FailureCensus(key, fnKey string, allowed map[string]reject) {
+	w := r.W
+	fn := w.Fn(fnKey)
+	d := fmt.Sprintf("%s rejects only for the frozen set of reasons %v, each under its own condition", fnKey, sortedKeys(allowed))
+	k := key + "|" + fnKey
+	if fn == nil {
+		r.Unres(k, d, "function not found")
+		return
+	}
+	w.FuncsAnalysed[fn] = true
+	idx := errResultIndex(fn)
+	if idx < 0 {
+		r.Unres(k, d, "function has no error result")
+		return
+	}
+	seen := map[string]bool{}
+	for _, b := range fn.Blocks {
+		rt := returnOf(b)
+		if rt == nil || b == fn.Recover || idx >= len(rt.Results) {
+			continue
+		}
+		ev := retValue(rt, idx)
+		if isNilConst(ev) {
+			continue
+		}
+		t := Render(ev)
+		hit := ""
+		condOK := false
+		cs := w.controlConds(fn, b)
+		for _, name := range sortedKeys(allowed) {
+			a := allowed[name]
+			if !t.Has(a.Atoms...) {
+				continue
+			}
+			hit = name
+			if len(a.Under) == 0 {
+				condOK = true
+			}
+			for _, c := range a.Under {
+				if ctlSatisfies(cs, c) {
+					condOK = true
+				}
+			}
+			if !condOK && len(a.Under) > 1 {
+				// disjunction (`if a || b { return err }`): every path to the return takes the edge of one of them
+				if cut, n := w.passEdges(fn, a.Under); n > 0 && !reachableCut(fn, cut)[b] {
+					condOK = true
+				}
+			}
+			if condOK {
+				break
+			}
+		}
+		switch {
+		case hit == "":
+			r.Bad(k+"|new", d, w.posOr(rt.Pos(), fn), "a rejection that is not in the frozen set: "+clip(t.String(), 200))
+		case !condOK:
+			r.Bad(k+"|"+hit+"|condition", d, w.posOr(rt.Pos(), fn), "the rejection `"+hit+"` is returned under a condition that is not one of the frozen ones")
+		default:
+			seen[hit] = true
+		}
+	}
+	for _, name := range sortedKeys(allowed) {
+		if seen[name] {
+			r.OK(k+"|"+name, d, w.FnPos(fn), "present, under its condition")
+		} else {
+			r.Unres(k+"|"+name+"#stale", d, "the rejection reason "+name+" no longer exists under its frozen condition (table stale, or a check was changed)")
+		}
+	}
+}
